@@ -499,7 +499,7 @@ func (g *gen) genCase() *Case {
 		c.EnvNsDelim = []string{"__", "."}[r.Intn(2)]
 	}
 	if g.p.Handlers && g.chance(0.25) {
-		c.Handler = []string{"identity", "dropnext", "prepend", "fail"}[r.Intn(4)]
+		c.Handler = []string{"identity", "dropnext", "prepend", "fail", "swallow"}[r.Intn(5)]
 		c.HandlerTok = "HANDLED"
 	}
 	if g.p.Exec && g.chance(0.3) {
